@@ -2,12 +2,12 @@
 F = "src/query/test_function.rs"
 
 UNITS = [
-    Unit(name="TestFunction::apply", calls=['FnArg::process'], file=F, impl="impl TestFunction", fn="apply", order=50, serves=["C10"],
+    Unit(name="TestFunction::apply", calls=['FnArg::process'], file=F, impl="impl TestFunction", fn="apply", order=50, serves=["C10", "C14"],
          requires=[("wf", "wf_fn(*self)"), ("cur", "is_cur(state)")],
          ensures=[("rel", "fn_rel(*self, state, r)")],
          body_prefix="proof { T::from_bool_roundtrip(true); T::from_bool_roundtrip(false); }"),
     Unit(name="TestFunction::process", file=F, impl="impl Query for TestFunction", fn="process", order=50,
-         trait_method=True, serves=["C10"],
+         trait_method=True, serves=["C10", "C14"],
          impl_extra="""
     open spec fn process_pre<'a, T: Queryable>(&self, state: State<'a, T>) -> bool { wf_fn(*self) && is_cur(state) }
     open spec fn process_rel<'a, T: Queryable>(&self, state: State<'a, T>, r: State<'a, T>) -> bool { fn_rel(*self, state, r) }
